@@ -251,11 +251,16 @@ def c15(out):
     out.rule = ("each case: 1..8 objects (CTR or parallel ECB, random cipher and back end) each with its own generated life-cycle history (use before init, init, keying, processing, cleanup, repeated cleanup, "
                 "use after cleanup, re-init, invalid calls), executed interleaved; 1 case in 40 adds a 400-round init/cleanup loop. Every allocator call the library makes is logged by a link-time wrapper "
                 "with (object, operation) attribution; the offline checker requires: no double/foreign/interior free, no allocator event in a call on an inert object or an invalid call, zero live blocks at "
-                "quiescence, expected return values; freed blocks are quarantined PROT_NONE so any use after free faults. distinct = distinct multi-object case hashes.")
+                "quiescence, expected return values; freed blocks are quarantined PROT_NONE so any use after free faults. Repeated in a process where mlock fails; and 70 000 CTR objects of one kind alive at once "
+                "on the real allocator (monitor off), all cleaned up twice: the heap in use must return to its starting value. distinct = distinct multi-object case hashes.")
     v = [("prod", n(out, 2400, 120000)), ("asan", n(out, 600, 20000))]
     if out.tier == "thorough":
         v += [("clang", 30000), ("prod+W32", 10000), ("prod+NOSIMD", 10000)]
     _life(out, "C15", "c15", v)
+    # the same in a process where locking memory fails, and 70 000 objects alive at once on the real allocator (heap balance by mallinfo2)
+    exe = build_driver("drv_life", ["drv_life.c", "allocmon.c"] + HIST, "prod", extra=WRAP)
+    run_sharded(out, exe, ["--prop", "C15", "--mode", "c15", "--starve", "1"], "prod", n(out, 600, 12000), label="mlock-fails")
+    run_sharded(out, exe, ["--prop", "C15", "--mode", "c15crowd", "--case-timeout", "600"], "prod", n(out, 9, 27), shards=9, label="crowd")
     out.assumptions += ["allocator wrapped at link time (--wrap); only calls made while a library call is in progress are attributed to the library",
                         "monitor validated each run by positive controls (dirty free, double free, leak)"]
 
@@ -289,7 +294,8 @@ def c17(out):
                 "counters and buffered keystream are non-zero; the allocator wrapper scans every byte of every block at the moment the library passes it to free(). A case counts as non-vacuous only if the "
                 "block held non-zero bytes right before cleanup (measured). Mandatory on the -O3 gcc and clang builds where a dead-store wipe would be optimised away. Repeated in a process where locking memory fails (mlock family -> ENOMEM through seccomp, RLIMIT_MEMLOCK=0), "
                 "and with 220 objects of all kinds alive at once.")
-    v = [("prod", n(out, 1800, 60000)), ("clang", n(out, 1800, 60000)), ("asan", n(out, 300, 6000)), ("prod+NOSIMD", n(out, 600, 6000)), ("clang+O2+W32", n(out, 600, 6000))]
+    v = [("prod", n(out, 1800, 60000)), ("clang", n(out, 1800, 60000)), ("asan", n(out, 300, 6000)), ("prod+NOSIMD", n(out, 600, 6000)), ("clang+O2+W32", n(out, 600, 6000)),
+         ("prod+LTO", n(out, 900, 20000)), ("clang+O3+NOSIMD", n(out, 600, 6000))]        # with -flto a wipe hidden behind a function in another file is visible to the optimiser again
     if out.tier == "thorough":
         v += [("clang+O2", 10000), ("prod+O2", 10000), ("prod+NOSIMD", 6000), ("prod+W32", 6000), ("clang+Os", 6000)]
     _life(out, "C17", "c17", v)
@@ -352,7 +358,7 @@ def _digest_compare(out, prop, base_label, what):
 
 def _xcfg_variants(out):
     if out.tier == "quick":
-        return ["prod", "prod+W32", "prod+UNAL0", "prod+NEUTRAL", "prod+W32+UNAL0", "prod+W32+NEUTRAL", "prod+NOSIMD", "prod+NOAVX2", "clang", "prod+O0", "clang+W32+UNAL0+NOSIMD", "clang+O1+NEUTRAL", "prod+Os", "clang+Os+W32", "prod+NATIVE", "clang+NATIVE+O2", "prod+Og+NATIVE+W32", "prod+NDEBUG+UCHAR", "clang+O1+NDEBUG+UCHAR+W32"]
+        return ["prod", "prod+W32", "prod+UNAL0", "prod+NEUTRAL", "prod+W32+UNAL0", "prod+W32+NEUTRAL", "prod+NOSIMD", "prod+NOAVX2", "clang", "prod+O0", "clang+W32+UNAL0+NOSIMD", "clang+O1+NEUTRAL", "prod+Os", "clang+Os+W32", "prod+NATIVE", "clang+NATIVE+O2", "prod+Og+NATIVE+W32", "prod+NDEBUG+UCHAR", "clang+O1+NDEBUG+UCHAR+W32", "prod+LTO"]
     vs = []
     for cc in ("prod", "clang"):
         for o in ("O0", "O1", "O2", "O3"):
@@ -381,7 +387,7 @@ def _xcfg_variants(out):
 def c12(out):
     import concurrent.futures as cf
     variants = _xcfg_variants(out)
-    out.rule = ("the working tree is built in %d configurations (word size x unaligned access x {SIMD all / no AVX2 / none / byte-order-neutral scalar} x gcc/clang x -O0..-O3, -Os, -Og, with and without -march=native on every file, -DNDEBUG, -funsigned-char; quick = covering subset of 19) "
+    out.rule = ("the working tree is built in %d configurations (word size x unaligned access x {SIMD all / no AVX2 / none / byte-order-neutral scalar} x gcc/clang x -O0..-O3, -Os, -Og, with and without -march=native on every file, -DNDEBUG, -funsigned-char; -flto; quick = covering subset of 20) "
                 "and each build runs the same seeded workload: single-block SKINNY (all variants, in-between key sizes, both directions), MANTIS (rounds, modes, entry points incl. double swap), tweak histories, "
                 "CTR histories (carries, splits, mid-stream rekey, invalid calls) and parallel histories on every back end the build contains; inside each build results are compared with the reference models and across "
                 "back ends; per-chunk digests (32 cases) of all outputs and return values are compared with the shipped configuration. distinct = distinct workload cases by output digest (each executed in every build)." % len(variants))
@@ -691,7 +697,7 @@ def c19(out):
                 "with (key, latest tweak, mode) and with the reference model. CTR<T>: setKey, setIV (carries/wrap), encrypt/decrypt with random cuts incl. zero-length, in place or not, compared with skinny128_ctr_*. "
                 "distinct = distinct (class, key, tweak sequence) / (class, key, iv, cuts).")
     cxx = [os.path.join(ard, f) for f in sorted(os.listdir(ard)) if f.endswith(".cpp")]
-    v = [("prod", n(out, 24000, 1200000)), ("asan", n(out, 6000, 150000)), ("prod+Os", n(out, 3000, 60000)), ("prod+O0", n(out, 3000, 60000))]     # -Os is the Arduino default; without inlining, same-named inline helpers of two files collide
+    v = [("prod", n(out, 24000, 1200000)), ("asan", n(out, 6000, 150000)), ("prod+Os", n(out, 3000, 60000)), ("prod+O0", n(out, 3000, 60000)), ("prod+UCHAR+Os", n(out, 3000, 60000))]     # plain char is unsigned on the ARM/ESP boards that run the portable path; -Os is the Arduino default; without inlining, same-named inline helpers of two files collide
     if out.tier == "thorough":
         v += [("clang", 200000), ("msan", 40000), ("prod+O3", 100000), ("asanclang", 40000), ("clang+Os", 60000), ("prod+Og", 60000)]
     for vname, cases in v:
